@@ -270,7 +270,10 @@ pub fn env_for(w: &World, contract: &str) -> Env {
     Env {
         block: BlockInfo {
             height: w.height,
-            time: Timestamp::from_seconds(w.time),
+            // real block times carry a sub-second part; it is a fixed function of the height (no PRNG
+            // draw), non-zero for every height >= 1, so code that compares full timestamps where whole
+            // seconds are meant meets the difference
+            time: Timestamp::from_seconds(w.time).plus_nanos(1 + (w.height.wrapping_mul(618_033_989)) % 999_999_999),
             chain_id: "sim-1".to_string(),
         },
         transaction: None,
